@@ -156,7 +156,7 @@ def replay_deploy(o):
     n = min(int(m.get("ctor_args_len", 0)), 256)
     args = b"".join(int(m.get(f"argw_{i}", 0)).to_bytes(32, "big") for i in range(4))[:n]
     cwd = os.getcwd()
-    os.chdir("/repo")
+    os.chdir(os.environ.get("VVERIF_REPO", "/repo"))
     try:
         import vyper
         from eth_keys import keys
